@@ -16,7 +16,9 @@ FUNCS = ['main:main', 'main:file_input_main', 'main:piped_input_main', 'backends
 
 POOL = ['[1000.100] <1>  -> wl_display#1.get_registry(new id wl_registry#2)', '[1000.200] <2> wl_display#1.get_registry(new id wl_registry#2)', 'program chatter',
         '', '[1000.300] <1>  -> wl_display#1.sync(new id wl_callback#3)', '   indented  ',
-        'form\x0cfeed \x1c and \u2028 separators \x85 inside a line', '[1000.400] <2> wl_display#1.error(wl_display#1, 1, "a\x0bb\u2029c")']
+        'form\x0cfeed \x1c and \u2028 separators \x85 inside a line', '[1000.400] <2> wl_display#1.error(wl_display#1, 1, "a\x0bb\u2029c")',
+        # two threads of the program writing at once: a bind cut in two by another message (the decoder trips over it; the program goes on writing)
+        '[1000.500] <1>  -> wl_registry#2.bind(1, "wl_x", [1000.501] <1> wl_display#1.delete_id(3)']
 
 
 class Deadlock(Exception):
@@ -118,7 +120,11 @@ class FakeTextIO:
             if p.on_block is None or not p.on_block():
                 raise Deadlock('the reader blocks forever: nothing will ever write to or close the pipe')
 
+    early_closes = []      # read ends closed while the writer could still write / with data unread (reset by the harness per run)
+
     def close(self):
+        if not self.closed and self.kind == 'pipe' and (self.pipe.write_open or self.pipe.buf):
+            FakeTextIO.early_closes.append('write end still open' if self.pipe.write_open else 'unread data')
         self.closed = True
 
     # the rest of the text-file interface, with the semantics of io.TextIOWrapper (universal newlines: only \\n ends a line)
@@ -275,6 +281,7 @@ def modes(ctx, case):
                 main.sys = S
                 main.main(mkargs(Mode.PIPE), output, input_func)
             else:
+                FakeTextIO.early_closes[:] = []
                 sched = ctx.choose(['child-first', 'on-first-block', 'chunk-per-block'], 'schedule') if part == 'stream' else 'on-first-block'
                 chunks = []
                 for li, i in enumerate(idx):
@@ -406,7 +413,7 @@ def modes(ctx, case):
                         main.main(a, output, input_func)
                     except SystemExit as e:
                         code = e.code
-                info.update(calls=calls, st=st, sched=sched)
+                info.update(calls=calls, st=st, sched=sched, early_closes=list(FakeTextIO.early_closes))
                 W.shutdown()
         finally:
             main.sys = saved[5]
@@ -446,6 +453,8 @@ def modes(ctx, case):
         ctx.check('environment = ours + WAYLAND_DEBUG=1 (+ library directory prepended)', kw.get('env') == _expected_env(base_env, libdir))
     ctx.check('the parent reads the pipe\'s read end as text', st['fdopened'] and st['fdopened'][0][0] == 1001)
     ctx.check('the write end is closed once, after the program exited', st['closed_fds'].count(1002) == 1)
+    ctx.check('the program\'s error stream is read to its end: the read end is never closed while the program can still write to it (it would die of SIGPIPE) or with lines unread',
+              r_info.get('early_closes') == [])
     ctx.check('all of the program\'s output is shown before the first prompt', r_info['prompts'] and r_info['prompts'][0] == len(r_out))
     ctx.check('wayland-debug exits with the program\'s exit status', code == status)
     ctx.check('file mode prompts after the file is read; pipe mode never prompts', f_info['prompts'] == [len(f_out)] and p_info['prompts'] == [])
